@@ -548,8 +548,84 @@ fn probes(ctx: &Ctx) {
     }
 }
 
+/// Bodies that place things: `.org` as the first, a middle or the last line of a body (origin and
+/// contents as parameters), in the code, data and EEPROM segment, with the caller going on behind
+/// the call and with labels on either side referenced across the calls. Compared with the same
+/// program written out by hand.
+fn placing_bodies(ctx: &Ctx, n: u64) {
+    let macros = [
+        ("org_last", vec!["\t.dw @1", "\t.org @0"]),
+        ("org_first", vec!["\t.org @0", "\t.dw @1"]),
+        ("org_mid", vec!["\t.dw @1", "\t.org @0", "\t.dw @1 + 1"]),
+        ("org_only", vec!["\t.org @0"]),
+        ("org_last_after_roundtrip", vec!["\t.dw @1", ".eseg", "\t.db low(@1)", ".cseg", "\t.org @0"]),
+        ("ee_org_last", vec![".eseg", "\t.db low(@1)", "\t.org @0 / 4", ".cseg", "\t.dw @1"]),
+        ("data_org_last", vec![".dseg", "\t.byte 2", "\t.org 0x100 + @0", ".cseg", "\t.dw @1"]),
+        ("nested_org_last", vec!["\torg_last @0, @1"]),
+    ];
+    fw::par_for(n, 16, |i| {
+        let mut rng = Rng::for_case(ctx.seed, 0xC09_0, i);
+        let mut src = String::from("; C09 placing bodies\n");
+        let mut hand = String::from("; C09 placing bodies, written out\n");
+        for (name, body) in &macros {
+            src.push_str(&format!(".macro {}\n{}\n.endm\n", name, body.join("\n")));
+        }
+        let mut origin = 8i64;
+        let calls = 2 + rng.usize(5);
+        for k in 0..calls {
+            let both = |t: &str, src: &mut String, hand: &mut String| {
+                src.push_str(t);
+                hand.push_str(t);
+            };
+            if rng.chance(1, 2) {
+                both(&format!("before_{}:\tnop\n", k), &mut src, &mut hand);
+            }
+            origin += 16 + 4 * rng.range(0, 8);
+            let value = rng.range(0x1000, 0xfff0);
+            let (name, body) = rng.pick(&macros);
+            src.push_str(&format!("\t{} {}, {}\n", name, origin, value));
+            let body: Vec<&str> = if *name == "nested_org_last" { macros[0].1.clone() } else { body.clone() };
+            for l in body {
+                hand.push_str(&l.replace("@0", &format!("{}", origin)).replace("@1", &format!("{}", value)));
+                hand.push('\n');
+            }
+            // the caller goes on: data, a label, references forwards and backwards
+            both(&format!("after_{}:\t.dw 0x{:x}\n", k, 0xa000 + k), &mut src, &mut hand);
+            if k > 0 && rng.chance(1, 2) {
+                both(&format!("\t.dw after_{}, after_{}\n", k - 1, k), &mut src, &mut hand);
+            }
+            if rng.chance(1, 3) {
+                both(&format!("\t.dw after_{}\n", calls - 1), &mut src, &mut hand);
+            }
+        }
+        both_end(&mut src, &mut hand);
+        let a = fw::build_str(&src);
+        let b = fw::build_str(&hand);
+        ctx.eval(1);
+        ctx.count("placing_body_programs", 1);
+        ctx.distinct(fw::hash_str(&src));
+        if !b.is_ok() {
+            ctx.inconclusive(format!("hand-written placing program does not build: {:?}", b.brief()));
+            return;
+        }
+        let same = match (&a, &b) {
+            (Outcome::Ok(x), Outcome::Ok(y)) => x.code == y.code && x.eeprom == y.eeprom && x.ram_filling == y.ram_filling,
+            _ => false,
+        };
+        if !same {
+            ctx.violation("macro/placing-body/differs-from-hand-expanded", format!("bodies holding .org: {} vs written out {}", fw::clip(&format!("{:?}", a.brief()), 120), fw::clip(&format!("{:?}", b.brief()), 120)), json!({"source": src, "hand_expanded": hand, "observed": a.brief()}));
+        }
+    });
+}
+
+fn both_end(src: &mut String, hand: &mut String) {
+    src.push_str("\tret\n");
+    hand.push_str("\tret\n");
+}
+
 pub fn run(ctx: &Ctx) -> i32 {
     probes(ctx);
+    placing_bodies(ctx, ctx.tier.pick(400u64, 200_000u64));
     let n = ctx.tier.pick(3_000u64, 3_000_000u64);
     fw::par_for(n, 32, |i| {
         let mut rng = Rng::for_case(ctx.seed, 0xC09, i);
@@ -564,7 +640,7 @@ pub fn run(ctx: &Ctx) -> i32 {
     });
     fw::finish(
         ctx,
-        "programs with 1-4 macro definitions (0-10 parameters; bodies of ldi/mov/ld/st/ldd/std/out with register, index and displacement parameters, .dw/.db on parameters incl. inside larger expressions, .if on a parameter, nested calls passing parameters on, .dseg/.eseg switches returning to .cseg, lines differing only in the letter case of a string or character literal, emit-once blocks (.ifndef F / #define F / ... / .else) and #define flags set by one macro and tested by another; names in mixed case, .endm/.endmacro) and 1-6 calls in any letter case, before or after the definition, (1 in 3 repeated verbatim, directly or after another call) with registers, all nine index forms, Y/Z displacements and random expressions of every precedence as arguments; 1 in 6 programs calls an undefined macro or omits a used argument (must fail); fixed probes for the argument shapes the statement names; distinct_nontrivial = distinct program texts",
+        "programs with 1-4 macro definitions (0-10 parameters; bodies of ldi/mov/ld/st/ldd/std/out with register, index and displacement parameters, .dw/.db on parameters incl. inside larger expressions, .if on a parameter, nested calls passing parameters on, .dseg/.eseg switches returning to .cseg, lines differing only in the letter case of a string or character literal, emit-once blocks (.ifndef F / #define F / ... / .else) and #define flags set by one macro and tested by another; names in mixed case, .endm/.endmacro) and 1-6 calls in any letter case, before or after the definition, (1 in 3 repeated verbatim, directly or after another call) with registers, all nine index forms, Y/Z displacements and random expressions of every precedence as arguments; 1 in 6 programs calls an undefined macro or omits a used argument (must fail); fixed probes for the argument shapes the statement names; plus bodies that place things (.org as first, middle or last body line with origin and contents as parameters, in all three segments, also nested, the caller going on behind the call with labels referenced across calls) compared with the program written out; distinct_nontrivial = distinct program texts",
         &[
             "hand expansion is done on the IR (refmodel/layout.rs::expand_macros): an argument is substituted as a value (parenthesised when it lands inside a larger expression)",
             "a parameter used inside a larger expression is only called with atomic, parenthesised or function-call arguments; labels and messages inside bodies are not generated",
